@@ -30,7 +30,7 @@ enum {
 	OP_QUERY, OP_CMP, OP_GCD, OP_GCD_BIN, OP_SQRT, OP_MOD, OP_MOD_ADD, OP_MOD_SUB,
 	OP_MOD_MULT, OP_MOD_MULT_DIGIT, OP_MOD_SQUARE, OP_MOD_EXP, OP_MOD_EXP_DIGIT,
 	OP_MOD_INV, OP_MOD_DIV, OP_MOD_REDUCE, OP_MOD_SQRT, OP_LEGENDRE, OP_NAF, OP_JSF,
-	OP_COMBO, OP_IMPORT, OP_EXPORT, OP_DIGIT
+	OP_COMBO, OP_IMPORT, OP_EXPORT, OP_DIGIT, OP_INIT
 };
 
 typedef struct {
@@ -252,6 +252,44 @@ run_once(const bcase_t *c, uint8_t pat, vout_t *o) {
 		default: rc = bn_export_le_hex(P[0], (uint32_t)c->x[1], obuf, obuf_n, szptr); break;
 		}
 		break;
+	case OP_INIT: {
+		/* bn_init() on an object the driver owns together with the bytes behind it: a capacity
+		 * that the array cannot hold must be refused; if it is accepted, two operations at full
+		 * capacity show whether num[BN_MAX_DIGITS] is touched (canary), without leaving the block */
+		struct init_box { bn_t b; uint8_t canary[64]; } *box = malloc(sizeof(struct init_box));
+		size_t bits = (size_t)c->x[0], arr_end, nread;
+		int r1 = -9, r2 = -9;
+		uint64_t cnt0 = 0, dig0 = 0;
+		junk_fill(box, sizeof(*box), pat);
+		rc = bn_init(&box->b, bits);
+#ifdef C01_MSAN
+		__msan_unpoison(box, sizeof(*box));
+#endif
+		if (0 == rc) {
+			cnt0 = box->b.count;
+			dig0 = box->b.digits;
+			if (cnt0 <= BN_MAX_DIGITS + 2) {
+				r1 = bn_bit_set(&box->b, (bits - 1), 1);
+				r2 = bn_add(&box->b, &box->b, cptr);
+			}
+		}
+#ifdef C01_MSAN
+		__msan_unpoison(box, sizeof(*box));
+#endif
+		arr_end = (size_t)((uint8_t*)&box->b.num[BN_MAX_DIGITS] - (uint8_t*)box);
+		vout_u64(&ex, (uint64_t)BN_MAX_DIGITS);
+		vout_u64(&ex, cnt0);
+		vout_u64(&ex, dig0);
+		vout_i32(&ex, r1);
+		vout_i32(&ex, r2);
+		vout_u64(&ex, (uint64_t)box->b.digits);
+		vout_u8(&ex, (uint8_t)junk_same(box, arr_end, sizeof(*box) - arr_end, pat));
+		nread = box->b.digits;
+		if (nread > BN_MAX_DIGITS + 2) nread = BN_MAX_DIGITS + 2;
+		if (0 != rc) nread = 0;
+		vout_blob(&ex, (uint8_t*)box->b.num, nread * BN_DIGIT_SIZE);
+		free(box);
+		break; }
 	case OP_DIGIT: {
 		bn_digit_t a = digit_from(c->buf, c->buflen),
 		    b = digit_from(c->buflen > 16 ? c->buf + 16 : c->buf, c->buflen > 16 ? c->buflen - 16 : 0),
